@@ -697,3 +697,12 @@ package db
 //@   modifies failed, owned, discardDeferred, commitCalls, committed, colSaves, kvCommits, kvCommitOK, kvDiscards, newTxns
 //@   tags C06
 //@ apply Forward: (*Txn).AddDACPolicy, (*Txn).AddDACActorRelationship, (*Txn).DeleteDACActorRelationship, (*Txn).AddNACActorRelationship, (*Txn).DeleteNACActorRelationship, (*Txn).ReEnableNAC, (*Txn).DisableNAC, (*Txn).GetNACStatus, (*Txn).GetNodeIdentity, (*Txn).VerifySignature, (*Txn).AddSchema, (*Txn).PatchSchema, (*Txn).PatchCollection, (*Txn).SetActiveSchemaVersion, (*Txn).AddView, (*Txn).RefreshViews, (*Txn).SetMigration, (*Txn).GetCollectionByName, (*Txn).GetCollections, (*Txn).GetSchemaByVersionID, (*Txn).GetSchemas, (*Txn).GetAllIndexes, (*Txn).ExecRequest, (*Txn).BasicImport, (*Txn).BasicExport
+//@
+//@ // ===== C12: DB.VerifySignature reports success only when the signature check actually ran (and succeeded)
+//@ // on the block that was asked for, with the key that was given
+//@ func (*DB).VerifySignature -> (err)
+//@   ensures err == nil ==> called(VerifyBlockSignatureWithKey, 1) && res(VerifyBlockSignatureWithKey, 1, 1) == nil
+//@   assert before call#1 VerifyBlockSignatureWithKey: arg0 == res(GetFromNode, 1, 0) && arg2 == pubKey
+//@   assert before call#1 HasValue: res(GetFromNode, 1, 0).Signature != nil
+//@   tags C12
+//@ apply ErrFlow: (*DB).VerifySignature
